@@ -793,6 +793,7 @@ where
 
         // Very short slices get sorted using insertion sort.
         if len <= MAX_INSERTION {
+            verif_point!(SortInsertion);
             insertion_sort(v, is_less);
             return false;
         }
@@ -800,6 +801,7 @@ where
         // If too many bad pivot choices were made, simply fall back to heapsort in order to
         // guarantee `O(n * log(n))` worst-case.
         if limit == 0 {
+            verif_point!(SortHeapsort);
             heapsort(v, is_less);
             return false;
         }
@@ -807,6 +809,7 @@ where
         // If the last partitioning was imbalanced, try breaking patterns in the slice by shuffling
         // some elements around. Hopefully we'll choose a better pivot this time.
         if !was_balanced {
+            verif_point!(SortBreakPatterns);
             break_patterns(v);
             limit -= 1;
         }
@@ -819,6 +822,7 @@ where
         if was_balanced && was_partitioned && likely_sorted {
             // Try identifying several out-of-order elements and shifting them to correct
             // positions. If the slice ends up being completely sorted, we're done.
+            verif_point!(SortPartialInsertion);
             if partial_insertion_sort(v, is_less) {
                 return false;
             }
@@ -829,6 +833,7 @@ where
         // This case is usually hit when the slice contains many duplicate elements.
         if let Some(ref p) = pred {
             if !is_less(p, &v[pivot]) {
+                verif_point!(SortPartitionEqual);
                 let mid = partition_equal(v, pivot, is_less);
 
                 // Continue sorting elements greater than the pivot.
@@ -837,6 +842,7 @@ where
             }
         }
 
+        verif_point!(SortPartition);
         // Partition the slice.
         let (mid, was_p) = partition(v, pivot, is_less);
         was_balanced = cmp::min(mid, len - mid) >= len / 8;
@@ -860,8 +866,10 @@ where
                 v = left;
             }
         } else if canceled.load(atomic::Ordering::Relaxed) {
+            verif_point!(SortCanceled);
             break true;
         } else {
+            verif_point!(SortJoin);
             // Sort the left and right half in parallel.
             let (canceled1, canceled2) = rayon::join(
                 || recurse(left, is_less, pred, limit, canceled),
